@@ -9,6 +9,7 @@
 # Python 3.8 syntax.
 
 import os
+import signal
 import struct
 import sys
 import time
@@ -44,9 +45,11 @@ def _readmaps_child(lo, hi):
     for k in range(lo, hi):
         b = W["bases"][k]
         try:
-            out.append(corpus.read_map(b.data, b.name))
+            rm = corpus.read_map(b.data, b.name)
         except BaseException:
-            out.append([])
+            rm = []
+        om = corpus.object_map(b.data)
+        out.append([rm, sorted(om.items())])
     return out
 
 
@@ -84,9 +87,13 @@ def prepare(master, tier, extra_bases=None):
     chunks = [(lo, min(n, lo + step)) for lo in range(0, n, step)]
 
     maps = []
+    omaps = []
     for part in core.run_sharded(_readmap_job, chunks, core.default_workers()):
-        maps.extend([[tuple(x) for x in m] for m in part])
+        for rm, om in part:
+            maps.append([tuple(x) for x in rm])
+            omaps.append(dict((int(a), int(b)) for a, b in om))
     W["readmaps"] = maps
+    W["objmaps"] = omaps
     W["rundir"] = os.path.join(core.scratch_dir(), "c11")
     os.makedirs(W["rundir"], exist_ok=True)
 
@@ -149,7 +156,8 @@ def plan_run(i):
         return p
     oidx = [rng.below(len(bases)) for _ in range(2)]
     others = [bases[k].data for k in oidx]
-    ctx = simdisk.FaultCtx(base.data, others, W["readmaps"][bi], W["magics"], [W["readmaps"][k] for k in oidx])
+    ctx = simdisk.FaultCtx(base.data, others, W["readmaps"][bi], W["magics"], [W["readmaps"][k] for k in oidx],
+                           W["objmaps"][bi])
     img, fired = simdisk.apply_fault_sequence(rng, ctx, enabled, 4)
     p.image = img
     p.faults = fired
@@ -324,6 +332,7 @@ def _compact(plan, rec):
     }
 
 
+CPU_BUDGET_S = 12   # CPU seconds one load of a <= 1 MiB file may burn (typical: milliseconds)
 WALL_GUARD_S = 3.0
 SLOW = {"seen": 0}  # per worker process: confirmed slow runs so far (only steers cost, never a verdict)
 
@@ -373,7 +382,7 @@ def run_sequence(items, wall=None):
     got = []
     flog = os.path.join(W["rundir"], "fault-seq-%d.log" % os.getpid())
     r = core.fork_call(_sequence_child, (items,), timeout=wall or (60.0 + 5.0 * len(items)), stream=True,
-                       on_record=got.append, faultlog_path=flog, quiet=True)
+                       on_record=got.append, faultlog_path=flog, quiet=True, cpu_limit=CPU_BUDGET_S + 8)
     try:
         os.unlink(flog)
     except OSError:
@@ -389,6 +398,9 @@ def run_sequence(items, wall=None):
     done = len(got)
     if done != last:
         return None  # died earlier than the item we are asking about
+    if r.status == "signal" and int(r.signal) == int(signal.SIGXCPU):
+        return {"class": "not_prompt", "by": "cpu", "fast_path": False, "site": _fault_site(r.faultlog),
+                "in_sequence": True}
     if r.status == "signal":
         return {"class": "crash", "signal": int(r.signal), "fast_path": False, "site": _fault_site(r.faultlog),
                 "in_sequence": True}
@@ -407,12 +419,12 @@ def _single_child(image_b64, name, fast_load, get_code, count_steps, marker, kin
     return rec
 
 
-def run_single_image(image, name, fast_load, get_code, force_steps, wall=90.0, kind="file"):
+def run_single_image(image, name, fast_load, get_code, force_steps, wall=90.0, kind="file", tag=""):
     """One image in its own fork of the zygote.  A signal or a stall is an outcome."""
-    flog = os.path.join(W["rundir"], "fault-%d.log" % os.getpid())
-    marker = os.path.join(W["rundir"], "marker-%d" % os.getpid())
+    flog = os.path.join(W["rundir"], "fault-%d%s.log" % (os.getpid(), tag))
+    marker = os.path.join(W["rundir"], "marker-%d%s" % (os.getpid(), tag))
     r = core.fork_call(_single_child, (core.b64(image), name, fast_load, get_code, force_steps, marker, kind),
-                       timeout=wall, faultlog_path=flog, quiet=True)
+                       timeout=wall, faultlog_path=flog, quiet=True, cpu_limit=CPU_BUDGET_S)
     entered = False
     try:
         with open(marker, "rb") as f:
@@ -428,6 +440,11 @@ def run_single_image(image, name, fast_load, get_code, force_steps, wall=90.0, k
         return r.value
     if sys.version_info < (3, 9) and predicts_fast_path(image, get_code):
         entered = True  # 3.8 has no marshal.loads audit event: the magic decides
+    if r.status == "signal" and int(r.signal) == int(signal.SIGXCPU):
+        fp = entered or _faultlog_in_fast_path(r.faultlog)
+        return {"outcome": "cpu_budget", "site": _fault_site(r.faultlog), "steps": None, "fast_path": fp, "exc": None,
+                "violation": {"class": "not_prompt", "by": "cpu", "cpu_s": CPU_BUDGET_S, "fast_path": bool(fp),
+                              "site": _fault_site(r.faultlog)}}
     if r.status == "signal":
         fp = entered or _faultlog_in_fast_path(r.faultlog)
         return {"outcome": "crash", "site": _fault_site(r.faultlog), "steps": None, "fast_path": fp, "exc": None,
@@ -516,7 +533,7 @@ def run_shard(shard):
             continue
         got = []
         r = core.fork_call(_batch_child, (batch, slow_seen >= 2), timeout=30.0 + 3.0 * len(batch), stream=True,
-                           on_record=got.append)
+                           on_record=got.append, cpu_limit=CPU_BUDGET_S + 8)
         for c in got:
             if c.get("o") == "wall_guard":
                 # not a verdict: the deterministic step clock decides, in isolation
@@ -689,7 +706,15 @@ def signature(v):
         return {"class": c, "in_sequence": True}
     if c in ("crash", "memory"):
         # control = the stored file was valid: a valid file that kills the interpreter is never the known finding
-        return {"class": c, "fast_path": bool(v.get("fast_path")), "control": bool(v.get("control"))}
+        sig = {"class": c, "fast_path": bool(v.get("fast_path")), "control": bool(v.get("control"))}
+        if c == "crash" and not v.get("fast_path"):
+            sig["site"] = v.get("site")
+        return sig
+    if c == "not_prompt" and v.get("by") == "cpu":
+        sig = {"class": c, "by": "cpu", "fast_path": bool(v.get("fast_path")), "control": bool(v.get("control"))}
+        if not v.get("fast_path"):
+            sig["site"] = v.get("site")
+        return sig
     if c in ("not_prompt", "stall"):
         return {"class": c}
     if c in ("fs_write", "compile", "exec", "import", "side_effect"):
@@ -889,13 +914,16 @@ def _report_sequence(master, k, sig, x, group, out_lines, evidence_v):
 
 
 def replay_witnesses(findings):
-    """Re-execute the stored failing input of every known finding (same host only).
+    """Re-execute the stored failing input of every known finding (same host only), concurrently.
     Returns {finding id: True/False}."""
     import glob
     import json
+    import threading
 
     host = "%d.%d.%d" % sys.version_info[:3]
     out = {}
+    lock = threading.Lock()
+    jobs = []
     for f in findings:
         if f.get("property") != PROP or f.get("status") != "known":
             continue
@@ -903,13 +931,46 @@ def replay_witnesses(findings):
         for path in sorted(glob.glob(os.path.join(core.VERIF_DIR, "findings", "%s-*.json" % fid))):
             with open(path) as fh:
                 r = json.load(fh)
-            if r.get("host") != host:
-                continue
-            rec = run_single_image(core.unb64(r["image_b64"]), r["name"], r["fast_load"], r["get_code"], True)
-            v = rec.get("violation")
-            ok = v is not None and matches_finding(signature(v), f)
+            if r.get("host") == host:
+                jobs.append((f, fid, r))
+
+    def one(f, fid, r, k):
+        rec = run_single_image(core.unb64(r["image_b64"]), r["name"], r["fast_load"], r["get_code"], True,
+                               kind=r.get("storage_object", "file"), tag="w%d" % k)
+        v = rec.get("violation")
+        ok = v is not None and matches_finding(signature(v), f)
+        with lock:
             out[fid] = out.get(fid, False) or ok
+
+    ths = [threading.Thread(target=one, args=(f, fid, r, k)) for k, (f, fid, r) in enumerate(jobs)]
+    for t in ths:
+        t.start()
+    for t in ths:
+        t.join()
     return out
+
+
+class WitnessRunner:
+    """replays the stored witnesses in the background while the seeded search runs"""
+
+    def __init__(self, findings):
+        import threading
+
+        self.result = {}
+        self.t = threading.Thread(target=self._run, args=(findings,))
+        self.t.start()
+
+    def _run(self, findings):
+        try:
+            self.result = replay_witnesses(findings)
+        except Exception as e:  # reported by the caller
+            self.result = {"__error__": repr(e)}
+
+    def wait(self):
+        self.t.join()
+        if "__error__" in self.result:
+            raise core.HarnessError("witness replay failed: %s" % self.result["__error__"])
+        return self.result
 
 
 def report_violations(master, viols, findings, out_lines, evidence_v):
@@ -940,8 +1001,8 @@ def report_violations(master, viols, findings, out_lines, evidence_v):
         pred = _pred_for(sig, x["name"], x["fast_load"], x["get_code"], x.get("kind", "file"))
         img = x["image"]
         info = {"strategy": ["not minimised"], "tests": 0}
-        if sig["class"] == "stall":
-            info = {"strategy": ["not minimised: every test of a stall costs its full wall-clock bound"], "tests": 0}
+        if sig["class"] == "stall" or (sig["class"] == "not_prompt" and sig.get("by") == "cpu"):
+            info = {"strategy": ["not minimised: every test of this class costs its full time budget"], "tests": 0}
         elif pred(img):
             try:
                 img, info = minimise.minimise_image(x.get("base"), x["image"], pred)
@@ -1061,6 +1122,7 @@ def sub_main(opts):
     master = opts["seed"]
     workers = opts.get("workers") or core.default_workers()
     prepare(master, opts["tier"], corpus.load_produced())
+    wr = WitnessRunner(core.load_known_findings())
     tot = seeded_phase(int(opts["runs"]), workers, 3000, t0)
     t_runs = time.time() - t0
     findings = core.load_known_findings()
@@ -1068,7 +1130,7 @@ def sub_main(opts):
     ev_v = {"known": {}, "replays": []}
     sweep0 = {"violations": []}
     n_unknown = report_violations(master, collect_violations(tot, sweep0), findings, lines, ev_v)
-    witnessed = replay_witnesses(findings)
+    witnessed = wr.wait()
     out = {"host": "%d.%d.%d" % sys.version_info[:3], "summary": host_summary(tot, t_runs), "lines": lines,
            "n_unknown": n_unknown, "known": ev_v["known"], "replays": ev_v["replays"], "witnessed": witnessed,
            "triples": sorted(tot["triples"]), "digest_verdict": "%016x" % tot["digest_verdict"]}
@@ -1114,6 +1176,7 @@ def main(opts):
     prepare(master, tier, produced)
     core.log("[C11] corpus: %d base files (%d produced), host magic %s, prepared in %.1fs" % (
         len(W["bases"]), len(produced), W["host_magic"], time.time() - t0))
+    wr = WitnessRunner(core.load_known_findings())
     tot = seeded_phase(cfg["runs"], workers, cfg["wall_cap"], t0)
     t_runs = time.time() - t0
     # ---- the same simulation on every other host interpreter (each has its own fast path)
@@ -1139,7 +1202,7 @@ def main(opts):
     lines = []
     ev_v = {"known": {}, "replays": []}
     n_unknown = report_violations(master, collect_violations(tot, sweep), findings, lines, ev_v)
-    witnessed = replay_witnesses(findings)
+    witnessed = wr.wait()
     for o in others:
         n_unknown += o["n_unknown"]
         lines.extend(o["lines"])
